@@ -418,6 +418,7 @@ def fold_block(stmts, env):
                 if r[0] != 'fall':
                     return r
         elif isinstance(st, ast.Raise):
+            env['__raise__'] = st
             return ('raise', norm(st.exc) if st.exc is not None else '')
         elif isinstance(st, ast.Return):
             return ('return', const(st.value, env) if st.value is not None else None)
